@@ -275,8 +275,11 @@ CLAIMED = {
              "the ends, far away and exact ties are generated.",
         design="7/C19",
         technique="Coq proof (exact polyline model; minimality per piece by convexity) + correspondence within rounding by vm_compute",
-        note="PART: general curved pieces (floating Newton from 5 starts) are outside the model and not claimed to be decided; "
-             "theorems about the model are in Proofs/AdvancedProofs.v (in progress at registration). Known finding K5: no "
+        note="Unbounded theorems (Props/C19.v) about the exact model: per piece the clamped foot point minimises the distance "
+             "over the whole piece (convexity), the result of the polyline projection is non-empty, sorted, inside the interval, "
+             "every returned parameter attains the minimum over ALL pieces and ALL parameters, and a point of the curve projects "
+             "onto parameters whose image is that point. PART: general curved pieces (floating Newton from 5 starts) are outside "
+             "the model and not claimed to be decided. Known finding K5: no "
              "iteration bound - a zero-length piece makes the loop spin forever; such inputs are kept out of the stream."),
     "C20": dict(
         text="Exact model of the intersection of planar polylines (pairwise line intersection with parameter tests, duplicates "
@@ -288,8 +291,9 @@ CLAIMED = {
         design="7/C20",
         technique="Coq proof (exact segment-intersection model: soundness and completeness for transversal pieces) + correspondence within rounding by vm_compute",
         note="PART: curved pieces (2-D Newton from a grid of starts) are outside the model; touching at a vertex or end point "
-             "is not promised by the property and may be missed by the library (accepted). Theorems about the model are in "
-             "Proofs/AdvancedProofs.v (in progress at registration)."),
+             "is not promised by the property and may be missed by the library (accepted). Unbounded theorems (Props/C20.v) about "
+             "the exact model: every reported pair lies in both intervals and is a meeting point; every transversal meeting of two "
+             "pieces is reported; no pair twice; disjoint polylines give the empty list."),
 }
 
 PENDING_REASON = "check not built yet (framework under construction; see DESIGN.md section 7)"
